@@ -10,6 +10,7 @@ import (
 	"sort"
 	"strings"
 	"sync"
+	"time"
 
 	sdk "github.com/cosmos/cosmos-sdk/types"
 
@@ -176,6 +177,8 @@ type Mon struct {
 	extra    []func(sc *StepCtx) // scenario monitors hooked per step (C17, C19)
 	atFinish []func(r *Run)
 	histOps  map[string]bool
+	// block time at which each binding was last seen to turn unavailable (owner's disable or slash)
+	disabledAt map[string]time.Time
 }
 
 func NewMon(stats *Stats) *Mon {
@@ -186,6 +189,7 @@ func (m *Mon) begin(r *Run) {
 	m.run = r
 	m.reqs = map[string]*ReqLedger{}
 	m.ctxs = map[string]*CtxTimeline{}
+	m.disabledAt = map[string]time.Time{}
 	m.seenSig = map[string]bool{}
 	m.broken = map[string]bool{}
 	m.histOps = map[string]bool{}
